@@ -521,6 +521,13 @@ func GenMsg(rt *rapid.T, n *Node, v *view, a int) (kind string, msg sdk.Msg, ok 
 		if len(v.pools) == 0 {
 			return kind, nil, false
 		}
+		viaCW := false
+		cwKind := func() string {
+			if viaCW {
+				return kind + "ViaCosmwasmPool"
+			}
+			return kind
+		}
 		route := func(label, from string, hops int) (ids []uint64, denoms []string, ok bool) {
 			cur := from
 			for h := 0; h < hops; h++ {
@@ -549,6 +556,9 @@ func GenMsg(rt *rapid.T, n *Node, v *view, a int) (kind string, msg sdk.Msg, ok 
 				ids = append(ids, p.id)
 				denoms = append(denoms, o)
 				cur = o
+				if p.typ == pmtypes.CosmWasm {
+					viaCW = true
+				}
 			}
 			return ids, denoms, true
 		}
@@ -567,9 +577,9 @@ func GenMsg(rt *rapid.T, n *Node, v *view, a int) (kind string, msg sdk.Msg, ok 
 			}
 			// the same swap is also accepted by the (older) gamm message, which reaches the router through the gamm keeper
 			if rapid.IntRange(0, 2).Draw(rt, "viaGamm") == 0 {
-				return kind, &gammtypes.MsgSwapExactAmountIn{Sender: me.String(), Routes: rs, TokenIn: coin(from, amt), TokenOutMinAmount: osmomath.OneInt()}, true
+				return cwKind(), &gammtypes.MsgSwapExactAmountIn{Sender: me.String(), Routes: rs, TokenIn: coin(from, amt), TokenOutMinAmount: osmomath.OneInt()}, true
 			}
-			return kind, &pmtypes.MsgSwapExactAmountIn{Sender: me.String(), Routes: rs, TokenIn: coin(from, amt), TokenOutMinAmount: osmomath.OneInt()}, true
+			return cwKind(), &pmtypes.MsgSwapExactAmountIn{Sender: me.String(), Routes: rs, TokenIn: coin(from, amt), TokenOutMinAmount: osmomath.OneInt()}, true
 		case "swapOut":
 			// exact-out routes are stated from the input side: pool i takes denom in_i
 			var rs []pmtypes.SwapAmountOutRoute
@@ -579,9 +589,9 @@ func GenMsg(rt *rapid.T, n *Node, v *view, a int) (kind string, msg sdk.Msg, ok 
 				in = outs[i]
 			}
 			if rapid.IntRange(0, 2).Draw(rt, "viaGamm") == 0 {
-				return kind, &gammtypes.MsgSwapExactAmountOut{Sender: me.String(), Routes: rs, TokenInMaxAmount: osmomath.NewInt(900_000_000_000_000), TokenOut: coin(outs[len(outs)-1], amt)}, true
+				return cwKind(), &gammtypes.MsgSwapExactAmountOut{Sender: me.String(), Routes: rs, TokenInMaxAmount: osmomath.NewInt(900_000_000_000_000), TokenOut: coin(outs[len(outs)-1], amt)}, true
 			}
-			return kind, &pmtypes.MsgSwapExactAmountOut{Sender: me.String(), Routes: rs, TokenInMaxAmount: osmomath.NewInt(900_000_000_000_000), TokenOut: coin(outs[len(outs)-1], amt)}, true
+			return cwKind(), &pmtypes.MsgSwapExactAmountOut{Sender: me.String(), Routes: rs, TokenInMaxAmount: osmomath.NewInt(900_000_000_000_000), TokenOut: coin(outs[len(outs)-1], amt)}, true
 		default:
 			ids2, outs2, ok := route("s", from, 1)
 			if !ok {
@@ -599,7 +609,7 @@ func GenMsg(rt *rapid.T, n *Node, v *view, a int) (kind string, msg sdk.Msg, ok 
 				}
 				return rs
 			}
-			return kind, &pmtypes.MsgSplitRouteSwapExactAmountIn{Sender: me.String(), TokenInDenom: from, TokenOutMinAmount: osmomath.OneInt(),
+			return cwKind(), &pmtypes.MsgSplitRouteSwapExactAmountIn{Sender: me.String(), TokenInDenom: from, TokenOutMinAmount: osmomath.OneInt(),
 				Routes: []pmtypes.SwapAmountInSplitRoute{{Pools: mk(ids, outs), TokenInAmount: osmomath.NewInt(amt)}, {Pools: mk(ids2, outs2), TokenInAmount: osmomath.NewInt(amount(rt, "amt2"))}}}, true
 		}
 	case "clCreatePosition":
